@@ -5,6 +5,10 @@ pub mod c05;
 pub mod c06;
 pub mod c07;
 pub mod c31;
+pub mod c33;
+pub mod c34;
+pub mod c35;
+pub mod c36;
 pub mod c37;
 
 pub struct Property {
@@ -20,6 +24,10 @@ pub const ALL: &[Property] = &[
     Property { id: "C06", level: "exploration", build: c06::build },
     Property { id: "C07", level: "exploration", build: c07::build },
     Property { id: "C31", level: "exploration", build: c31::build },
+    Property { id: "C33", level: "exploration", build: c33::build },
+    Property { id: "C34", level: "exploration", build: c34::build },
+    Property { id: "C35", level: "exploration", build: c35::build },
+    Property { id: "C36", level: "exploration", build: c36::build },
     Property { id: "C37", level: "exploration", build: c37::build },
 ];
 
